@@ -84,7 +84,9 @@ def run(ctx):
     if ctx.tier == "thorough":
         run_progress_mc(ctx, "prog6_noisy5", [1] * 6, [5], [1], True, 5, 2, 5, timeout=3000)
         run_progress_mc(ctx, "prog6_silent7", [1] * 6, [0], [3], False, 7, 2, 5, timeout=3000)
-        run_progress_mc(ctx, "prog4_w4", [2, 2, 2, 1], [3], [], True, 3, 4, 7, timeout=3400)
+        # (W = 4 with two windows does not finish: > 10 M distinct states with the queue still growing after 57 min,
+        #  even without an asynchronous prefix; the window arithmetic is exercised with W = 2 here and with the real
+        #  W = 4 by the simulated executions)
     ctx.assumptions += ["virtual time: all post-stabilisation delays <= 100 ms (< DELTA = 250 ms)",
                         "crashed < 20% and Byzantine < 20% of the stake"]
     # 0b. component level: progress of the system rests on the real Votor casting exactly the votes the
